@@ -32,13 +32,14 @@ PATS = ["x = 1", "_a_ = _a_ + _b_", "_a_ = _b_ + _a_", "___ = ___ + 2", "print(_
         "_a_ = ___\n_f_(_a_)", "_a_ = _b_\n_b_ = _a_", "___ + ___ + ___", "_x_ = [___]", "_x_ = {'a': ___}",
         "_a_._m_(___)\n_b_._m_(___)", "_a_._m_(___)\n_a_._k_(___)", "___._m_(_x_)", "_a_._m_(_b_._m_(___))",
         "_c_ = _o_._m_\n_d_ = _o_._m_", "_f_(___)\n_f_(___)", "_f_(_f_(___))",
+        "___ = 'name    score'", "___ = 'name\tscore'", "_x_ = __e__",
         "_x_ * _x_", "_x_ + _x_", "(_v_ + 1) + _v_", "_x_ * _y_", "_a_ = _b_ * _b_", "print(_x_ + 1, _x_ + 1)", "_x_ < _x_"]
 STM = ["x = 1", "y = x + 2", "print(x)", "total = total + n", "items.append(x)", "for i in items:\n    total = total + i",
        "if x > 2:\n    y = 1\nelse:\n    y = 2", "while x < 10:\n    x = x + 1", "def f(a, b):\n    return a * b",
        "z = f(x, 3)", "w = items[0]", "q = [x, y, 1]", "s = x < y", "y = 2 * x", "y = x - 2", "n = n + total",
        "print(y, x)", "a = 1", "b = 0", "total = 5", "name = 'Ada'", "for i in range(1, 10):\n    print(i)", "flag = True",
        "y = 1", "z = f(y)", "x = x < x", "q = [y]", "r = {'a': x}", "x = 1.0", "print(x + 1, x + 1)",
-       "items.remove(x)", "names.append(y)", "c = items.count", "d = items.index", "k = items.index(names.count(x))",
+       "hdr = 'name\tscore'", "items.remove(x)", "names.append(y)", "c = items.count", "d = items.index", "k = items.index(names.count(x))",
        "print(len(items))", "area = width * height", "t = (a + 1) + b", "sq = side * side", "d = x + x", "print(a + 1, b + 1)"]
 
 
@@ -77,16 +78,22 @@ def validate(ctx, code, pat, ms, kind):
                      bindings={k: getattr(v, 'id', '?') for k, v in m.symbol_table.items()})
 
 
-def make_alphabet(stms, max_len, pool):
+def make_alphabet(stms, max_len, pool, load_routes=True):
     def body(ctx):
         n = ctx.choose(max_len, 'n') + 1
         idx = [ctx.choose(len(stms) if i == 0 else min(pool, len(stms)), 's%d' % i) for i in range(n)]
         code = "\n".join(stms[i] for i in idx) + "\n"
         pat = PATS[ctx.choose(len(PATS), 'pattern')]
-        ctx.observe(code + '|' + pat)
-        ctx.set_sample({'program': code, 'pattern': pat})
+        # how the submission reached the report: CAIT parses it itself, or takes over the Source tool's parse
+        loaded = ('contextualize_report', 'set_source')[ctx.choose(2, 'loaded')] if load_routes else 'contextualize_report'
+        ctx.observe(code + '|' + pat + '|' + loaded)
+        ctx.set_sample({'program': code, 'pattern': pat, 'loaded': loaded})
         cmds.clear_report()
-        cmds.contextualize_report(code)
+        if loaded == 'set_source':
+            from pedal.source import set_source
+            set_source(code)
+        else:
+            cmds.contextualize_report(code)
         ctx.step('find_matches')
         try:
             ms = find_matches(pat)
@@ -94,9 +101,18 @@ def make_alphabet(stms, max_len, pool):
             ctx.fail({'symptom': 'find_matches raised', 'exception': type(e).__name__}, program=code, pattern=pat)
             return
         if ms:
-            ctx.mark_nontrivial(code + '|' + pat)
+            ctx.mark_nontrivial(code + '|' + pat + '|' + loaded)
         ctx.outcome('matches:%d' % min(len(ms), 3))
         validate(ctx, code, pat, ms, 'alphabet')
+        # "in the student's code": the tree the matches live in is the tree of the submitted text
+        from pedal.cait.cait_api import parse_program
+        try:
+            searched = ast.dump(parse_program().astNode)
+        except Exception as e:
+            searched = 'parse_program raised ' + type(e).__name__
+        if searched != ast.dump(ast.parse(code)):
+            ctx.fail({'symptom': 'the searched tree is not the tree of the submitted text', 'loaded': loaded},
+                     program=code, pattern=pat)
     return body
 
 
@@ -217,13 +233,13 @@ def make_ordered(max_prog):
     return body
 
 
-SUB_PROG = ["w = items[0]", "z = f(x, 3)", "y = x + 2", "print(x + 1, x + 1)", "t = (a + 1) + b",
+SUB_PROG = ["x = q + r\nq = 1\nr = 2", "w = items[0]", "z = f(x, 3)", "y = x + 2", "print(x + 1, x + 1)", "t = (a + 1) + b",
             "k = items.index(names.count(x))", "v = report['Station']['City']", "y = x", "m = grid[i][j + 1]",
             "print(f(x) + 1, y)", "x = y + 2"]
 SUB_OUTER = ["_t_ = __e__", "print(__e__, ___)", "_t_ = _f_(__e__, ___)", "_t_ = __e__ + ___", "_v_ = __e__[___]",
              "_v_ = __e__\n_w_ = ___"]
 SUB_INNER = ["_l_[__e__]", "__e__ + 1", "_v_ + ___", "___[___]", "_f_(__e__)", "_t_", "__e__", "_v_", "__e__[___]",
-             "_g_(___)", "__k__ + __e__"]
+             "_g_(___)", "__k__ + __e__", "_w_", "_w_ + ___"]
 
 
 def make_submatch():
@@ -270,6 +286,17 @@ def make_submatch():
                          outer=outer, inner=inner, message=str(e)[:200])
                 continue
             total += len(subs)
+            # the singular form of the same call must agree with the plural one
+            if node is not None and route.startswith('node.find_matches'):
+                try:
+                    one = node.find_match(inner, use_previous=not route.endswith('False)'))
+                    if (one is None) != (len(subs) == 0):
+                        ctx.fail({'symptom': 'find_match() and find_matches() disagree on whether the pattern occurs',
+                                  'route': route}, program=code, outer=outer, inner=inner, plural=len(subs),
+                                 singular=one is not None)
+                except Exception as e:
+                    ctx.fail({'symptom': 'find_match raised', 'exception': type(e).__name__, 'route': route},
+                             program=code, outer=outer, inner=inner)
             before = len(ctx.fails)
             validate(ctx, code, inner, subs, 'sub-inner')
             for sig, det in ctx.fails[before:]:
